@@ -240,6 +240,16 @@ func ParseContractFile(path string) (*ContractFile, error) {
 			// forgotten, its result is unknown): neither inlined nor used by contract, so
 			// its preconditions are not obligations of this function
 			d.Kind, d.CallText = "havoccall", normCallText(strings.TrimSpace(strings.TrimPrefix(text, "havoc call ")))
+		case strings.HasPrefix(text, "clobbers call "):
+			// "clobbers call <callee> : <lvalue>, ...": the named call (unknown code that may
+			// call back into the module, which the engine otherwise assumes it does not) may
+			// change the listed locations; they are forgotten after the call
+			rest := strings.TrimPrefix(text, "clobbers call ")
+			k := strings.Index(rest, ":")
+			if k < 0 {
+				return nil, fmt.Errorf("%s:%d: bad clobbers directive", path, ln+1)
+			}
+			d.Kind, d.CallText, d.Expr = "clobbers", normCallText(strings.TrimSpace(rest[:k])), strings.TrimSpace(rest[k+1:])
 		case strings.HasPrefix(text, "appendlike call "):
 			// ASSUMPTION (listed in the evidence): the named call follows Go's append idiom
 			// func(dst []T, ...) []T: the slice it returns (its first result) lies in the
